@@ -4,8 +4,13 @@
 Import-free. Follows `crates/radicle-fetch/src/state.rs` stage by stage:
 
 * `CanonicalId` — abstracted to "which identity document anchors the fetch": the document at the local
-  canonical `refs/rad/id` if there is one, else the advertised one; no advertised `refs/rad/id` ⇒ `panic`
-  (the `expect` in `CanonicalId::prepare_updates`). Verification of the document itself is not modelled.
+  canonical `refs/rad/id` if there is one, else the advertised one; no advertised `refs/rad/id` ⇒ `Err`
+  (`error::Prepare::Verification` in `CanonicalId::prepare_updates`; it used to be an `expect`, i.e. a panic
+  a remote could trigger). Verification of the document itself is not modelled.
+  No panic site remains on the modelled path (`fetch_no_panic`); the `expect`s left in `stage.rs` concern
+  signed reference names that are not `Qualified` (`refs/<category>/<name>`), which are outside the modelled
+  domain. The `panic` outcome is kept so that this can be stated, and because the harness still reports a
+  panic of the real code (as an oracle violation).
 * delegates / threshold arithmetic (`threshold - 1` for a local delegate, blocked delegates removed,
   the local key blocked on `pull`);
 * the special-refs stage (`specialStage`): `SpecialRefs` (ls-refs prefixes by scope, `ref_filter`,
@@ -407,7 +412,7 @@ def finalUpdates (env : Env) (L sp : Refdb) (delegates : List Key) (remotes : Si
 
 def fetch (env : Env) (cfg : Config) (L A : Refdb) : Outcome × Refdb :=
   match cfg.advDoc with
-  | none => (.panic, L)
+  | none => (.error, L)
   | some _ =>
   match anchorOf cfg with
   | none => (.error, L)
